@@ -229,6 +229,7 @@ func childMain(tier string, from, to int, progPath, resPath string) {
 		root = "/repo"
 	}
 	seeds := loadSeeds(root)
+	seeds["beacon"] = append(seeds["beacon"], synthBeaconSeeds(seeds["beacon"])...)
 	e, err := newEnv(seed, seeds)
 	if err != nil {
 		fmt.Fprintf(os.Stderr, "HARNESS-SETUP-FAILED: %v\n", err)
@@ -446,6 +447,80 @@ func (c *child) runSegment(s segment, lo, hi int) {
 			}
 			c.done(s.Kind, s.Net, key)
 		}
+	case s.Kind == "sequence":
+		// Stateful order: the entry points above in a seed-determined random order, concentrated on the genuine
+		// vectors and their numeric neighbours (an 8-byte field of the key moved by a few units), so that what
+		// an earlier request left behind (cached items, locks, counters) is what the next request meets.
+		ask := func(i int, code byte, body []byte) {
+			msg := append([]byte{code}, body...)
+			var reply []byte
+			site, m, pan := guard(func() { reply = p.VerifHandleTalkRequest(c.env.peer, c.env.paddr, msg) })
+			if pan {
+				c.violation("panic:"+site+":"+msgClass(m), fmt.Sprintf("TALKREQ handler (%s) panicked in a request sequence: %s at %s", s.Net, m, site), i, s.Kind, s.Net, msg)
+			} else if bad := checkReply(msg, reply); bad != "" {
+				c.violation("malformed-reply:"+strings.SplitN(bad, ":", 2)[0], fmt.Sprintf("reply to TALKREQ is not well-formed: %s", bad), i, s.Kind, s.Net, msg)
+			}
+		}
+		store := func(i int, key, val []byte) {
+			var verr error = fmt.Errorf("not run")
+			site, m, pan := guard(func() { verr = ne.validator.ValidateContent(key, val) })
+			if pan {
+				c.violation("panic:"+site+":"+msgClass(m), fmt.Sprintf("%s ValidateContent panicked in a request sequence: %s at %s (key %s)", s.Net, m, site, lib.HexShort(key, 40)), i, s.Kind, s.Net, key)
+				return
+			}
+			if verr != nil {
+				return
+			}
+			c.count("sequence_stored_"+s.Net, 1)
+			site, m, pan = guard(func() { _ = ne.store.Put(key, contentID(key), val) })
+			if pan {
+				c.violation("panic:"+site+":"+msgClass(m), fmt.Sprintf("%s ContentStorage.Put panicked in a request sequence: %s at %s", s.Net, m, site), i, s.Kind, s.Net, key)
+			}
+		}
+		for i := lo; i < hi; i++ {
+			local := i - s.start
+			rng := c.rng(s.Kind, s.Net, local)
+			if len(g.seeds) == 0 {
+				c.done(s.Kind, s.Net, []byte{byte(i)})
+				continue
+			}
+			sd := g.seeds[rng.Intn(len(g.seeds))]
+			key := sd.key
+			if rng.Intn(2) == 0 {
+				key = nearKey(rng, sd.key)
+			}
+			op := rng.Intn(6)
+			in := append([]byte{byte(op)}, key...)
+			c.logCase(i, s.Kind, s.Net, in)
+			switch op {
+			case 0: // the genuine item is offered and stored
+				store(i, sd.key, sd.val)
+			case 1: // the genuine content under a neighbouring key
+				store(i, key, sd.val)
+			case 2: // adapter lookup
+				var gerr error
+				site, m, pan := guard(func() { _, gerr = ne.store.Get(key, contentID(key)) })
+				if pan {
+					c.violation("panic:"+site+":"+msgClass(m), fmt.Sprintf("%s ContentStorage.Get panicked in a request sequence: %s at %s (key %s)", s.Net, m, site, lib.HexShort(key, 40)), i, s.Kind, s.Net, key)
+				}
+				if gerr == nil {
+					c.count("sequence_get_found_"+s.Net, 1)
+				}
+			case 3: // FINDCONTENT
+				ask(i, portalwire.FINDCONTENT, append(binary.LittleEndian.AppendUint32(nil, 4), key...))
+			case 4: // OFFER
+				ask(i, portalwire.OFFER, append(binary.LittleEndian.AppendUint32(nil, 4), sszListOfBytes([][]byte{key, sd.key})...))
+			case 5: // an accepted stream that carries the genuine item under this key
+				body := portalwire.VerifEncodeContents([][]byte{sd.val})
+				site, m, pan := guard(func() { _ = p.VerifHandleOfferedContents(c.env.peer.ID(), [][]byte{key}, body) })
+				if pan {
+					c.violation("panic:"+site+":"+msgClass(m), fmt.Sprintf("handleOfferedContents (%s) panicked in a request sequence: %s at %s", s.Net, m, site), i, s.Kind, s.Net, body)
+				}
+			}
+			c.count(fmt.Sprintf("sequence_op_%d", op), 1)
+			c.done(s.Kind, s.Net, in)
+		}
+		c.queueLiveness(s)
 	case s.Kind == "wire-talkreq" || s.Kind == "wire-utp":
 		c.wireParallel(s, lo, hi, func(i, local int, adv *pnode.Adversary, rng *rand.Rand) []byte {
 			var msg []byte
@@ -676,6 +751,21 @@ func (c *child) wireParallel(s segment, lo, hi int, f func(i, local int, adv *pn
 		}(adv)
 	}
 	wg.Wait()
+}
+
+// queueLiveness: the network's content loop must still be consuming its queue. A marker element with no keys is
+// queued behind whatever the sequence left there; a loop that is stuck on an earlier element never takes it
+// (the 45 s wedge watchdog then ends the child with the sequence segment logged as in flight).
+func (c *child) queueLiveness(s segment) {
+	ne := c.env.nets[s.Net]
+	q := ne.node.Queue
+	c.logCase(s.start+s.Count-1, s.Kind, s.Net, []byte("content-queue-marker"))
+	q <- &portalwire.ContentElement{}
+	for len(q) > 0 {
+		time.Sleep(5 * time.Millisecond)
+	}
+	c.lastTick.Store(time.Now().UnixNano())
+	c.count("content_queue_markers_consumed", 1)
 }
 
 // liveness: after a batch of hostile traffic a well-formed PING must still be answered.
